@@ -45,6 +45,24 @@ def script_for(i, c):
     return {"id": "id-%d" % i, "cfg": cfg, "steps": steps}
 
 
+def wire(chk, sd):
+    """socket level: the relay exchanges of spec/Relay.tla (every status class incl. interim 1xx, every body
+    framing, plugins on/off) through the real server; the final response must carry both IDs"""
+    import c01
+    binp = c01.build(sd)
+    cs, r = cases.enumerate_cases("GenRelay", "GenRelay.cfg")
+    cs = [c for c in cs if c[10] == "ids_on"]
+    chk.add_tlc("relay exchanges with the ID middleware on (spec/Relay.tla)", r)
+    tp = cases.execute([binp, "relay"], cs, sd, "idwire", timeout=1800, extra_args=[str(vlib.seed())])
+    chk.cov["traces_validated_against_impl"] += len(cs)
+    chk.cov["wire_exchanges"] = len(cs)
+
+    def sig(clause, e):
+        c = e["c"]
+        return {"clause": clause, "path": "proxied-wire", "status": c[5], "respbody": c[7], "plugin": c[11], "method": c[0]}
+    cases.judge(chk, "ObsIdWireTrace", "ObsIdWireTrace.cfg", tp, sig, "idwire")
+
+
 def run(tier):
     chk = vlib.Check("C16", tier)
     sd = vlib.scratch("c16")
@@ -105,6 +123,7 @@ def run(tier):
         return {"clause": clause, "path": c["path"], "plugin": c["plugin"], "rval": c["rval"], "hdr": c["hdr"],
                 "reqOn": c["reqOn"], "traceOn": c["traceOn"]}
     cases.judge(chk, "ObsIdTrace", "ObsIdTrace.cfg", jp, sig, "ids")
+    wire(chk, sd)
     chk.sample(recs[0])
     chk.sample({"c": recs[len(recs) // 2].get("c")})
     chk.cov["exhaustive"] = True
